@@ -297,11 +297,10 @@ func fakenetOne(rng *rand.Rand) fnResult {
 			}
 		}
 	}
-	runCaller := func(p *fproc, isWriter bool, idx int, lens []int) {
+	runCaller := func(p *fproc, isWriter bool, idx int, lens []int, d func()) {
 		defer wg.Done()
 		defer p.done.Store(true)
 		p.gid.Store(goid())
-		d := mkDelay()
 		<-start
 		for i, n := range lens {
 			if i == len(lens)-1 {
@@ -346,11 +345,11 @@ func fakenetOne(rng *rand.Rand) fnResult {
 	}
 	for i, p := range writers {
 		wg.Add(1)
-		go runCaller(p, true, i+1, wscripts[p.name])
+		go runCaller(p, true, i+1, wscripts[p.name], mkDelay())
 	}
 	for _, p := range readers {
 		wg.Add(1)
-		go runCaller(p, false, 0, rscripts[p.name])
+		go runCaller(p, false, 0, rscripts[p.name], mkDelay())
 	}
 	// closers
 	closeAfter := uint64(rng.Intn(45)) // Close is called once this many events have been logged
@@ -381,9 +380,10 @@ func fakenetOne(rng *rand.Rand) fnResult {
 	envStop := make(chan struct{})
 	var envWG sync.WaitGroup
 	envWG.Add(1)
+	envSeed := rng.Int63()
 	go func() {
 		defer envWG.Done()
-		r := rand.New(rand.NewSource(rng.Int63()))
+		r := rand.New(rand.NewSource(envSeed))
 		<-start
 		for {
 			select {
